@@ -50,8 +50,16 @@ def handleC12 (j : J) : J :=
           | .error _, .error _ => true
           | _, _ => false)
       | none => false
+    -- `print_schema_text_parses_nodesc` evaluated (descriptions off): the text parses to the tree of the printed document of
+    -- the schema WITHOUT its descriptions, whenever that schema satisfies `printTextWF` (descriptions on)
+    let s0 := SdlText.stripSchema s
+    let wfStrip := SdlText.printTextWF { o with descriptions := true } s0
+    let parsesStrip := match SdlText.parseSdlTextT t, SdlText.docToAst (SdlText.printedDoc s0) with
+      | some a, some b => a.toJson.render == b.toJson.render
+      | _, _ => false
     .obj [("text", .str (stringOfText t)), ("same", .bool (stringOfText t == first)),
-          ("wf", .bool (SdlText.printTextWF o s)), ("parses", .bool parses), ("canon", .bool canon), ("preimage", .bool preimage)]
+          ("wf", .bool (SdlText.printTextWF o s)), ("parses", .bool parses), ("canon", .bool canon), ("preimage", .bool preimage),
+          ("wfStrip", .bool wfStrip), ("parsesStrip", .bool (o.descriptions || parsesStrip))]
   | "printTA" =>
     -- the total Text model WITH applied schema directives (`include_custom_schema_directives` truthy / whitelist), the first
     -- model on the same input, `printTextWFA`, and the statement `parse(printSchemaTA s apps) = tree of printedDocA` evaluated
